@@ -81,7 +81,7 @@ _spec_hash = None
 
 
 # bump when the logic of a stage in check.py / stages_ext.py changes what a stage produces
-STAGE_VERSION = "10"
+STAGE_VERSION = "14"
 
 
 def spec_hash():
@@ -426,10 +426,7 @@ def stage_replay(tier, dump=None, name="replay", universe="3"):
                 summ = json.loads(out.strip().splitlines()[-1])
             except Exception:
                 crashed = True
-            mismatches = []
-            if os.path.exists(mm):
-                with open(mm) as fh:
-                    mismatches = [json.loads(x) for x in fh if x.strip()]
+            mismatches = read_ndjson(mm)
             results.append({"hasher": h, "keyform": k, "summary": summ, "mismatches": mismatches,
                             "crashed": crashed, "returncode": p.returncode, "stderr": err[-2000:]})
         return {"configs": results, "script": script}
@@ -511,7 +508,8 @@ def drive_plan(tier, seed):
                 ("medium", "default", "owned", 2500), ("wide", "const", "borrowed", 2000),
                 ("wide", "identity", "owned", 2000), ("churn", "const", "owned", 2000),
                 ("churn", "sip", "borrowed", 2000), ("large", "default", "owned", 1200),
-                ("fifo", "identity", "owned", 2500), ("fifo", "const", "borrowed", 1500)]
+                ("fifo", "identity", "owned", 2500, 28), ("fifo", "const", "borrowed", 1500, 20),
+                ("fifo", "default", "owned", 1500, 14), ("fifo", "identity", "borrowed", 2000, 29, "uniform")]
     else:
         base = []
         for i, h in enumerate(["const", "onebit", "identity", "sip", "default", "siprand"]):
@@ -519,9 +517,16 @@ def drive_plan(tier, seed):
                 steps = {"small": 6000, "medium": 6000, "wide": 4000, "churn": 4000, "large": 2500,
                          "fifo": 2000 if h == "const" else 6000}[prof]
                 base.append((prof, h, "owned" if (i + j) % 2 == 0 else "borrowed", steps))
-    for n, (prof, h, k, steps) in enumerate(base):
-        plan.append({"profile": prof, "hasher": h, "keyform": k, "steps": steps,
-                     "seed": seed * 1000 + n + 1, "crash_rate": 0.0, "forget_rate": 0.0})
+    for n, job in enumerate(base):
+        prof, h, k, steps = job[:4]
+        j = {"profile": prof, "hasher": h, "keyform": k, "steps": steps,
+             "seed": seed * 1000 + n + 1, "crash_rate": 0.0, "forget_rate": 0.0}
+        if len(job) > 4:
+            j["fit"] = job[4]
+            j["uniform"] = len(job) > 5
+        elif prof == "fifo":
+            j["fit"] = [28, 20, 14][n % 3]
+        plan.append(j)
     return plan
 
 
@@ -587,6 +592,20 @@ def validate_one(workdir, trace, timeout=3600, cfg="LruMemTrace.cfg", module="Lr
     return {"done": done, "bad": bad, "ok": ok, "tail": "" if ok else p.stdout[-3000:]}
 
 
+def read_ndjson(path):
+    """lines written by a process that may have died in the middle of one"""
+    out = []
+    if os.path.exists(path):
+        with open(path, errors="replace") as fh:
+            for x in fh:
+                if x.strip():
+                    try:
+                        out.append(json.loads(x))
+                    except Exception:
+                        pass
+    return out
+
+
 def drop_partial_last_line(path):
     with open(path, "rb") as fh:
         data = fh.read()
@@ -640,6 +659,10 @@ def stage_drive(tier, name="drive", plan=None):
                        "--events", trace, "--script-out", script,
                        "--crash-rate", str(job["crash_rate"]), "--forget-rate", str(job["forget_rate"]),
                        "--segment", str(job.get("segment", 1500 if job["profile"] == "fifo" else 500))]
+                if job.get("fit"):
+                    cmd += ["--fit", str(job["fit"])]
+                if job.get("uniform"):
+                    cmd += ["--uniform"]
                 p = subprocess.run(cmd, stdout=subprocess.PIPE, stderr=subprocess.PIPE, text=True, timeout=1800,
                                    preexec_fn=limits())
                 res = {"job": job, "trace": trace, "script": script, "driver_rc": p.returncode}
@@ -667,6 +690,58 @@ def stage_drive(tier, name="drive", plan=None):
         shutil.rmtree(w, ignore_errors=True)
         return {"runs": results}
     return cached(name + "-" + tier, source_hash() + "-" + spec_hash() + "-" + str(seed), go)
+
+
+def big_crash_segments(path, tier):
+    """crash sweeps on caches of 70-112 entries (the bounded model has 3): panics at EVERY
+    callback of a reallocation, a growing insertion at an exactly full table, a clone, a
+    retain and a mass eviction.  Long prefixes are replayed silently after the first run."""
+    def opl(op, **kw):
+        a = {"op": op, "k": 0, "kh": 0, "vs": 0, "n": 0, "keep": [], "w": [], "fl": False}
+        a.update(kw)
+        return {"c": 1, "d": 0, "a": a}
+
+    def fill(n, cap=0):
+        return [opl("new", n=-1, kh=cap)] + [opl("insert", k=i, kh=0, vs=i % 3) for i in range(1, n + 1)]
+    suffix = [opl("len"), opl("get_lru"), opl("insert", k=1, vs=1), opl("remove_mru"), opl("debug"),
+              opl("clear")]
+    segs = [
+        {"prefix": fill(70), "op": opl("reserve", n=100), "sweep": ["hash"]},
+        {"prefix": fill(70) + [opl("remove", k=i) for i in (3, 9, 27)], "op": opl("shrink_to_fit"),
+         "sweep": ["hash"]},
+        {"prefix": fill(112), "op": opl("insert", k=500, vs=1), "sweep": ["hash"]},
+        {"prefix": fill(70), "op": opl("try_reserve", n=100), "sweep": ["hash", "alloc"]},
+        {"prefix": fill(70), "op": dict(opl("clone"), d=2), "sweep": ["clone", "hash"]},
+        {"prefix": fill(70), "op": opl("retain", keep=list(range(1, 71, 3))), "sweep": ["closure", "eq"]},
+        {"prefix": fill(70), "op": opl("set_max_size", n=56 * 8), "sweep": ["hash", "eq"]},
+    ]
+    if tier != "quick":
+        segs += [
+            {"prefix": fill(200), "op": opl("reserve", n=300), "sweep": ["hash"]},
+            {"prefix": fill(224), "op": opl("insert", k=900, vs=2), "sweep": ["hash"]},
+            {"prefix": fill(150), "op": opl("shrink_to", n=10), "sweep": ["hash"]},
+        ]
+    with open(path, "w") as fh:
+        for s in segs:
+            s["suffix"] = suffix
+            s["quiet_prefix"] = True
+            # callbacks to arm: the first few, and those around every power of two, the 64-entry
+            # block boundary, and the number of entries
+            s["ns"] = [1, 2, 3, 5, 8, 15, 16, 17, 31, 32, 33, 63, 64, 65, 66, 69, 70, 71, 72, 100, 111, 112,
+                       113, 114, 127, 128, 129, 149, 150, 151, 199, 200, 201, 223, 224, 225, 226]
+            fh.write(json.dumps(s, separators=(",", ":")) + "\n")
+    return len(segs)
+
+
+def stage_bigcrash(tier):
+    d0 = os.path.join(CACHE, "bigcrash-segments-%s.ndjson" % tier)
+    os.makedirs(CACHE, exist_ok=True)
+    n = big_crash_segments(d0, tier)
+    cfgs = [("default", "owned"), ("identity", "borrowed")] if tier == "quick" else \
+           [("default", "owned"), ("identity", "borrowed"), ("sip", "owned"), ("onebit", "borrowed")]
+    res = stage_segments(tier, d0, "segments-bigcrash", universe="8", configs=cfgs)
+    res["segments"] = n
+    return res
 
 
 def stage_scale(tier):
@@ -1010,12 +1085,18 @@ def script_segments(script, lines):
         for i, raw in enumerate(fh, 1):
             if i > last:
                 break
-            if raw.startswith('{"reset"'):
+            if raw.startswith('{"reset"') or '"reset":true' in raw[:80]:
                 seg = []
             else:
                 seg.append(raw)
             if i in want:
-                out[i] = [json.loads(x) for x in seg]
+                ops = []
+                for x in seg:
+                    try:
+                        ops.append(json.loads(x))
+                    except Exception:
+                        pass            # a line cut short by the death of the process that wrote it
+                out[i] = ops
     return out
 
 
